@@ -1,26 +1,223 @@
 (** Property C20 - tokenizing then detokenizing returns the original text.
-    Theorems only; every proof is a reference to a lemma of Tok/*Proofs.v. *)
+    Theorems only; every proof is a reference to a lemma of Tok/*Proofs.v.
+
+    Model: Tok/Utf8.v (Go's string<->[]rune), ByteMap.v, Heap.v (container/heap = gods binaryheap), Vocab.v
+    (model.Vocabulary), Special.v, Bpe.v, Spm.v.  A vocabulary is the abstract interface [vocab]; [vocab_of] is
+    the Go struct.  "Valid UTF-8 text" = [of_runes rs] for a list [rs] of Unicode scalar values.  The
+    pre-tokeniser (regexp2) is the variable [split] with hypothesis [split_partition]. *)
 From Coq Require Import List NArith ZArith Bool.
-From V Require Import Common.Bytes Tok.Utf8 Tok.ByteMap Tok.ByteMapProofs.
+From V Require Import Common.Bytes Tok.Utf8 Tok.ByteMap Tok.ByteMapProofs Tok.Utf8Proofs Tok.Heap Tok.Vocab Tok.VocabProofs
+     Tok.Special Tok.SpecialProofs Tok.Bpe Tok.Spm Tok.MergeProofs Tok.BpeProofs Tok.SpmProofs Tok.LiteralProofs Tok.FuelProofs Tok.Witness.
 Import ListNotations.
-Open Scope N_scope.
+
+(** * the byte <-> rune map *)
 
 (** Decode's rune -> byte map inverts Encode's byte -> rune map on every byte value except NUL (the bound 256 is
-    the domain; proof by exhaustive computation) *)
-Theorem C20_bytemap_inverse : forall b, b < 256 -> b <> 0 -> bunmap (bmap b) = Some b.
+    the domain; proof by exhaustive computation).  This is the REPAIRED map (fixes/C20-bytemap-tilde.patch). *)
+Theorem C20_bytemap_inverse : forall b, (b < 256)%N -> b <> 0%N -> bunmap (bmap b) = Some b.
 Proof. exact bytemap_inverse. Qed.
 Print Assumptions C20_bytemap_inverse.
 
-Theorem C20_bytemap_injective : forall b c, b < 256 -> c < 256 -> bmap b = bmap c -> b = c.
+Theorem C20_bytemap_injective : forall b c, (b < 256)%N -> (c < 256)%N -> bmap b = bmap c -> b = c.
 Proof. exact bytemap_injective. Qed.
 Print Assumptions C20_bytemap_injective.
 
-(** lifted to strings: unmapping the mapped form of any NUL-free byte string gives it back *)
-Theorem C20_bytemap_string_inverse : forall s,
-  Forall (fun b => b < 256) s -> no_nul s = true -> unmap_string (map_bytes s) = s.
+(** the map as it was before the repair identified '~' with the space *)
+Theorem C20_bytemap_unrepaired_refuted :
+  ~ (forall b, (b < 256)%N -> b <> 0%N -> bunmap (bmap_unrepaired b) = Some b).
+Proof. intros H. specialize (H 126%N eq_refl ltac:(discriminate)). discriminate. Qed.
+Print Assumptions C20_bytemap_unrepaired_refuted.
+
+(** lifted to strings *)
+Theorem C20_bytemap_string_inverse : forall s, is_bytes s -> no_nul s = true -> unmap_string (map_bytes s) = s.
 Proof. exact unmap_map_bytes. Qed.
 Print Assumptions C20_bytemap_string_inverse.
 
 Example C20_bytemap_string_inverse_nonvacuous :
-  unmap_string (map_bytes [126; 32; 127; 173; 195; 169]) = [126; 32; 127; 173; 195; 169].
+  unmap_string (map_bytes [126; 32; 127; 173; 195; 169]%N) = [126; 32; 127; 173; 195; 169]%N.
 Proof. vm_compute. reflexivity. Qed.
+
+(** * Go's conversions on valid UTF-8 *)
+Theorem C20_utf8_runes_roundtrip : forall rs, scalars rs -> to_runes (of_runes rs) = rs /\ utf8_valid (of_runes rs) = true.
+Proof. intros rs H. split; [apply to_runes_of_runes, H | apply utf8_valid_of_runes, H]. Qed.
+Print Assumptions C20_utf8_runes_roundtrip.
+
+(** * the special-token split *)
+
+(** the fragments are a partition of the input, for every vocabulary and text *)
+Theorem C20_special_split_partition : forall v s, concat (map frag_value (fragments v s)) = s.
+Proof. exact fragments_text. Qed.
+Print Assumptions C20_special_split_partition.
+
+(** every special fragment is a special token of the vocabulary with its own id *)
+Theorem C20_special_split_ids : forall v s sp id,
+  In (FSpec sp id) (fragments v s) -> In sp (vspecials v) /\ id = venc v sp.
+Proof.
+  intros v s sp id H. pose proof (fragments_ok v s) as Hok. rewrite Forall_forall in Hok. exact (Hok _ H).
+Qed.
+Print Assumptions C20_special_split_ids.
+
+(** the bounded recursion of the model is the unbounded loop of the code (non-empty special tokens) *)
+Theorem C20_special_split_fuel : forall sp id f1 f2 t,
+  sp <> [] -> (length t <= f1)%nat -> (length t <= f2)%nat -> split_one f1 sp id t = split_one f2 sp id t.
+Proof. exact split_one_fuel. Qed.
+Print Assumptions C20_special_split_fuel.
+
+(** * the merge loops *)
+
+(** BPE: whatever the merge ranks and the vocabulary, the concatenation of the pieces left by the loop is the
+    input rune list; and every piece is in the vocabulary when every single rune is *)
+Theorem C20_merge_preserves_text : forall v rs,
+  text (fst (bpe_cells v rs)) = rs /\
+  (Forall (fun r => (0 <= venc v (encode_rune r))%Z) rs ->
+   Forall (fun c => cr c = [] \/ (0 <= venc v (of_runes (cr c)))%Z) (fst (bpe_cells v rs))).
+Proof.
+  intros v rs. pose proof (bpe_cells_inv v rs) as H. destruct (bpe_cells v rs) as [cells h].
+  destruct H as [_ _ Ht HV _]. split; [exact Ht|exact HV].
+Qed.
+Print Assumptions C20_merge_preserves_text.
+
+(** SentencePiece: whatever the scores, same text; every piece is a single rune or a token *)
+Theorem C20_spm_merge_preserves_text : forall v rs,
+  text (fst (spm_cells v rs)) = rs /\
+  Forall (fun c => cr c = [] \/ (exists r, cr c = [r]) \/ (0 <= venc v (of_runes (cr c)))%Z) (fst (spm_cells v rs)).
+Proof.
+  intros v rs. pose proof (spm_cells_inv v rs) as H. destruct (spm_cells v rs) as [cells h].
+  destruct H as [_ _ Ht HV _]. split; [exact Ht|exact HV].
+Qed.
+Print Assumptions C20_spm_merge_preserves_text.
+
+(** the fuel of the model's loops is never exhausted: they stop because the heap is empty, as the code's do *)
+Theorem C20_merge_loops_terminate : forall v rs, snd (bpe_cells v rs) = [] /\ snd (spm_cells v rs) = [].
+Proof. intros v rs. split; [apply bpe_cells_heap_empty|apply spm_cells_heap_empty]. Qed.
+Print Assumptions C20_merge_loops_terminate.
+
+(** * round trip, BPE *)
+
+(** full statement: every byte-covering vocabulary, every valid NUL-free text *)
+Definition C20_bpe_roundtrip_full : Prop := forall v split s,
+  vocab_consistent v -> bpe_complete v -> specials_in_vocab v -> split_partition split ->
+  valid_text s -> no_nul s = true ->
+  bpe_decode v (bpe_encode v split s false) = Some s.
+
+(** false of the faithful model: ids 105/106 are special whatever their type (known finding
+    C20-special-105-106-nonascii) *)
+Theorem C20_bpe_roundtrip_refuted : ~ C20_bpe_roundtrip_full.
+Proof.
+  intros H.
+  specialize (H wv_bpe wsplit [195; 141]%N wv_bpe_consistent wv_bpe_complete wv_bpe_specials wsplit_partition).
+  rewrite wv_bpe_counterexample in H.
+  assert (Hv : valid_text [195; 141]%N) by (exists [205%N]; split; [repeat constructor|reflexivity]).
+  specialize (H Hv eq_refl). discriminate.
+Qed.
+Print Assumptions C20_bpe_roundtrip_refuted.
+
+(** partial: guarded by "every special token whose literal occurs in the text is plain ASCII" (decidable);
+    validity of the UTF-8 is not even needed here - it is what makes the real pre-tokeniser a partition *)
+Theorem C20_bpe_roundtrip : forall v split s,
+  vocab_consistent v -> bpe_complete v -> specials_in_vocab v -> split_partition split ->
+  is_bytes s -> no_nul s = true -> specials_plain_b v s = true ->
+  bpe_decode v (bpe_encode v split s false) = Some s.
+Proof.
+  intros v split s H1 H2 H3 H4 H5 H6 H7. apply bpe_roundtrip; try assumption. apply specials_plain_b_spec, H7.
+Qed.
+Print Assumptions C20_bpe_roundtrip.
+
+Example C20_bpe_roundtrip_nonvacuous :
+  vocab_consistent wv_bpe /\ bpe_complete wv_bpe /\ specials_in_vocab wv_bpe /\ split_partition wsplit /\
+  specials_plain_b wv_bpe [97; 98; 126; 32; 127; 97]%N = true /\
+  bpe_encode wv_bpe wsplit [97; 98; 126; 32; 127; 97]%N false = [256; 26; 188; 27; 253]%Z.
+Proof.
+  split; [exact wv_bpe_consistent|]. split; [exact wv_bpe_complete|]. split; [exact wv_bpe_specials|].
+  split; [exact wsplit_partition|]. destruct wv_bpe_example as [H1 H2]. split; assumption.
+Qed.
+
+(** * round trip, SentencePiece *)
+
+Definition C20_spm_roundtrip_full : Prop := forall v rs,
+  vocab_consistent v -> spm_complete v -> specials_in_vocab v -> specials_valid v -> scalars rs ->
+  spm_decode v (spm_encode v (of_runes rs) false) = DOk (of_runes rs).
+
+(** false: U+2581 (known finding C20-spm-u2581) ... *)
+Theorem C20_spm_roundtrip_refuted : ~ C20_spm_roundtrip_full.
+Proof.
+  intros H.
+  specialize (H wv_spm [9601%N] wv_spm_consistent wv_spm_complete wv_spm_specials wv_spm_specials_valid ltac:(repeat constructor)).
+  rewrite wv_spm_counterexample_u2581 in H. discriminate.
+Qed.
+Print Assumptions C20_spm_roundtrip_refuted.
+
+(** ... and, independently, the literal form of a byte token (known finding C20-spm-byte-token-literal):
+    even restricted to texts without U+2581 the statement is false *)
+Theorem C20_spm_roundtrip_refuted_byte_literal :
+  ~ (forall v rs, vocab_consistent v -> spm_complete v -> specials_in_vocab v -> specials_valid v -> scalars rs ->
+       containsb (of_runes rs) sep = false ->
+       spm_decode v (spm_encode v (of_runes rs) false) = DOk (of_runes rs)).
+Proof.
+  intros H.
+  specialize (H wv_spm [60; 48; 120; 52; 49; 62]%N wv_spm_consistent wv_spm_complete wv_spm_specials wv_spm_specials_valid
+                ltac:(repeat constructor) eq_refl).
+  rewrite wv_spm_counterexample_byte_literal in H. discriminate.
+Qed.
+Print Assumptions C20_spm_roundtrip_refuted_byte_literal.
+
+(** partial: the text contains neither U+2581 nor a six-byte window of the form "<0x??>" (both decidable) *)
+Theorem C20_spm_roundtrip : forall v rs,
+  vocab_consistent v -> spm_complete v -> specials_in_vocab v -> specials_valid v -> scalars rs ->
+  containsb (of_runes rs) sep = false -> no_shape_b (of_runes rs) = true ->
+  spm_decode v (spm_encode v (of_runes rs) false) = DOk (of_runes rs).
+Proof.
+  intros v rs H1 H2 H3 H4 H5 H6 H7. apply spm_roundtrip; try assumption.
+  - apply no_sep_b_spec, H6.
+  - apply no_shape_b_spec, H7.
+Qed.
+Print Assumptions C20_spm_roundtrip.
+
+Example C20_spm_roundtrip_nonvacuous :
+  vocab_consistent wv_spm /\ spm_complete wv_spm /\ specials_in_vocab wv_spm /\ specials_valid wv_spm /\
+  spm_encode wv_spm (of_runes [97; 98; 32; 98; 233]%N) false = [257; 0; 259; 196; 170]%Z /\
+  containsb (of_runes [97; 98; 32; 98; 233]%N) sep = false /\ no_shape_b (of_runes [97; 98; 32; 98; 233]%N) = true.
+Proof.
+  split; [exact wv_spm_consistent|]. split; [exact wv_spm_complete|]. split; [exact wv_spm_specials|].
+  split; [exact wv_spm_specials_valid|]. exact wv_spm_example.
+Qed.
+
+(** * ids inside the vocabulary: every vocabulary, every text (any bytes), with or without BOS/EOS *)
+Theorem C20_ids_in_vocab : forall v split s addsp,
+  vocab_range v -> specials_in_vocab v ->
+  (vaddbos v = true -> id_ok v (vbos v)) -> (vaddeos v = true -> id_ok v (veos v)) ->
+  Forall (id_ok v) (bpe_encode v split s addsp) /\ Forall (id_ok v) (spm_encode v s addsp).
+Proof.
+  intros v split s addsp H1 H2 H3 H4. split; [apply bpe_ids_in_vocab|apply spm_ids_in_vocab]; assumption.
+Qed.
+Print Assumptions C20_ids_in_vocab.
+
+(** * special-token literals: the leftmost occurrence of the first special token (in SpecialVocabulary order) that
+    occurs in the text is encoded as exactly that token's id, between the encodings of the fragments of the text
+    before and after it *)
+Theorem C20_special_literal : forall v split s pre sp post i,
+  vspecials v = pre ++ sp :: post -> (forall x, In x pre -> ~ Infix x s) -> index_of s sp = Some i ->
+  exists fa fb, frags_text fa = firstn i s /\ frags_text fb = skipn (i + length sp) s /\
+    bpe_encode v split s false = flat_map (bpe_frag v split) fa ++ venc v sp :: flat_map (bpe_frag v split) fb /\
+    spm_encode v s false = flat_map (spm_frag v) fa ++ venc v sp :: flat_map (spm_frag v) fb.
+Proof.
+  intros v split s pre sp post i H1 H2 H3.
+  destruct (special_literal_fragment v s pre sp post i H1 H2 H3) as [fa [fb [E [Ha Hb]]]].
+  exists fa, fb. split; [exact Ha|]. split; [exact Hb|].
+  unfold bpe_encode, spm_encode, add_special, bpe_encode_ids, spm_encode_ids. cbn [andb].
+  rewrite E, !flat_map_app. split; reflexivity.
+Qed.
+Print Assumptions C20_special_literal.
+
+Example C20_special_literal_nonvacuous :
+  vspecials wv_spm = [] ++ byte_token 104 :: [byte_token 105] /\ index_of [97; 60; 48; 120; 54; 56; 62; 98]%N (byte_token 104) = Some 1%nat.
+Proof. split; reflexivity. Qed.
+
+(** * the Go struct satisfies the hypotheses put on abstract vocabularies *)
+Theorem C20_vocab_of_ok : forall values types scores merges bos eos ab ae,
+  let v := vocab_of values types scores merges bos eos ab ae in
+  vocab_consistent v /\ vocab_range v /\ specials_in_vocab v.
+Proof.
+  intros. split; [apply vocab_of_consistent|]. split; [apply vocab_of_range|apply vocab_of_specials].
+Qed.
+Print Assumptions C20_vocab_of_ok.
